@@ -26,27 +26,27 @@ func TestMain(m *testing.M) { pt.Main(m, false) }
 const bkt = "roundtrip"
 
 type op struct {
-	Kind  string `json:"kind"` // put, mpu, copy, get, head, attrs, tags, list, restart
-	Key   int    `json:"key"`
-	Proc  int    `json:"proc"`
-	Enc   string `json:"enc,omitempty"` // plain, unsigned, presigned, chunked-signed, chunked-signed-trailer, chunked-unsigned-trailer
-	Algo  string `json:"algo,omitempty"`
-	MD5   bool   `json:"md5,omitempty"`
-	Csum  bool   `json:"csum,omitempty"`
-	Size  int    `json:"size,omitempty"`
-	Seed  uint64 `json:"seed,omitempty"`
-	Parts []int  `json:"parts,omitempty"` // mpu: sizes of the parts
-	First int    `json:"first_part,omitempty"` // mpu: number of the first part minus one (part numbers need not start at 1)
-	Step  int    `json:"part_step,omitempty"`  // mpu: distance between part numbers minus one (nor be contiguous)
-	Chunk []int  `json:"chunks,omitempty"`
-	Frags []int  `json:"frags,omitempty"`
-	Meta  []s3c.KV `json:"meta,omitempty"`
-	Hdrs  []s3c.KV `json:"hdrs,omitempty"` // content headers
+	Kind  string    `json:"kind"` // put, mpu, copy, get, head, attrs, tags, list, restart
+	Key   int       `json:"key"`
+	Proc  int       `json:"proc"`
+	Enc   string    `json:"enc,omitempty"` // plain, unsigned, presigned, chunked-signed, chunked-signed-trailer, chunked-unsigned-trailer
+	Algo  string    `json:"algo,omitempty"`
+	MD5   bool      `json:"md5,omitempty"`
+	Csum  bool      `json:"csum,omitempty"`
+	Size  int       `json:"size,omitempty"`
+	Seed  uint64    `json:"seed,omitempty"`
+	Parts []int     `json:"parts,omitempty"`      // mpu: sizes of the parts
+	First int       `json:"first_part,omitempty"` // mpu: number of the first part minus one (part numbers need not start at 1)
+	Step  int       `json:"part_step,omitempty"`  // mpu: distance between part numbers minus one (nor be contiguous)
+	Chunk []int     `json:"chunks,omitempty"`
+	Frags []int     `json:"frags,omitempty"`
+	Meta  []s3c.KV  `json:"meta,omitempty"`
+	Hdrs  []s3c.KV  `json:"hdrs,omitempty"` // content headers
 	Tags  []s3c.Tag `json:"tags,omitempty"`
-	Src   int    `json:"src,omitempty"`
-	Repl  bool   `json:"replace,omitempty"`      // copy: metadata directive REPLACE
-	TRepl bool   `json:"tag_replace,omitempty"`  // copy: tagging directive REPLACE
-	Kill  bool   `json:"kill,omitempty"`         // restart: SIGKILL instead of SIGTERM
+	Src   int       `json:"src,omitempty"`
+	Repl  bool      `json:"replace,omitempty"`     // copy: metadata directive REPLACE
+	TRepl bool      `json:"tag_replace,omitempty"` // copy: tagging directive REPLACE
+	Kill  bool      `json:"kill,omitempty"`        // restart: SIGKILL instead of SIGTERM
 }
 
 type caseA struct {
